@@ -36,6 +36,12 @@ R1 = {
         M("algo/Mul.tla", "algo/Mul_fixed_W3S4B2.cfg", tiers=T, workers=14, timeout=3000),
         M("algo/Mul.tla", "algo/Mul_boxed_W3_3x4.cfg", tiers=T, workers=14, timeout=3000),
         M("algo/Mul.tla", "algo/Mul_boxed_W2_5x6.cfg", tiers=T, workers=14, timeout=3000),
+        M("algo/Square.tla", "algo/Square_school_W2S5.cfg"), M("algo/Square.tla", "algo/Square_school_W3S4.cfg"), M("algo/Square.tla", "algo/Square_school_W4S3.cfg"),
+        M("algo/Square.tla", "algo/Square_fixed_W2S4B1.cfg"), M("algo/Square.tla", "algo/Square_fixed_W3S4B1.cfg"),
+        M("algo/Square.tla", "algo/Square_boxed_W2S4.cfg"), M("algo/Square.tla", "algo/Square_boxed_W3S4.cfg"),
+        M("algo/Square.tla", "algo/Square_boxed_W2S8_carry2.cfg", expect_violation="NoCarryTwo"),
+        M("algo/Square.tla", "algo/Square_school_W2S7.cfg", tiers=T, workers=8), M("algo/Square.tla", "algo/Square_boxed_W2S8.cfg", tiers=T, workers=8),
+        M("algo/Square.tla", "algo/Square_boxed_W4S4.cfg", tiers=T, workers=8),
     ],
     "C05": [
         M("algo/Shift.tla", "algo/Shift_W2N3.cfg"),
